@@ -136,15 +136,44 @@ func formatDescriptor(p *Prog) map[string]interface{} {
 	// gzip iff compress
 	if wr := p.FuncByName("writeReader"); wr != nil {
 		gz := "no gzip writer"
+		underCompress := func(b *ssa.BasicBlock) bool {
+			for dm := b; dm != nil; dm = dm.Idom() {
+				if ifi, ok := dm.Instrs[len(dm.Instrs)-1].(*ssa.If); ok {
+					if pr, ok := ifi.Cond.(*ssa.Parameter); ok && pr.Name() == "compress" && dm != b && (dm.Succs[0] == b || dm.Succs[0].Dominates(b)) {
+						return true
+					}
+				}
+			}
+			return false
+		}
+		makesGzip := func(g *ssa.Function) []*ssa.BasicBlock {
+			var out []*ssa.BasicBlock
+			for _, b := range g.Blocks {
+				for _, in := range b.Instrs {
+					if call, ok := in.(*ssa.Call); ok && call.Call.StaticCallee() != nil && classifyExternal(call.Call.StaticCallee()) == xGzip && strings.HasPrefix(call.Call.StaticCallee().Name(), "NewWriter") {
+						out = append(out, b)
+					}
+				}
+			}
+			return out
+		}
+		for _, b := range makesGzip(wr) {
+			gz = "gzip writer not guarded by the compress flag"
+			if underCompress(b) {
+				gz = "gzip iff compress"
+			}
+		}
+		// the compressor may be made by a private helper that the writer calls under the flag
 		for _, b := range wr.Blocks {
 			for _, in := range b.Instrs {
-				if call, ok := in.(*ssa.Call); ok && call.Call.StaticCallee() != nil && classifyExternal(call.Call.StaticCallee()) == xGzip && strings.HasPrefix(call.Call.StaticCallee().Name(), "NewWriter") {
-					gz = "gzip writer not guarded by the compress flag"
-					for dm := b; dm != nil; dm = dm.Idom() {
-						if ifi, ok := dm.Instrs[len(dm.Instrs)-1].(*ssa.If); ok {
-							if pr, ok := ifi.Cond.(*ssa.Parameter); ok && pr.Name() == "compress" && (dm.Succs[0] == b || dm.Succs[0].Dominates(b)) {
+				if call, ok := in.(*ssa.Call); ok {
+					if g := call.Call.StaticCallee(); g != nil && g != wr && inSod(p, g) && g.Blocks != nil && len(makesGzip(g)) > 0 {
+						if underCompress(b) {
+							if gz == "no gzip writer" {
 								gz = "gzip iff compress"
 							}
+						} else {
+							gz = "gzip writer not guarded by the compress flag"
 						}
 					}
 				}
@@ -461,7 +490,7 @@ func checkCorpus(p *Prog, r *Result, rule string, desc map[string]interface{}) {
 // ---- C13 ------------------------------------------------------------------------------
 
 func checkC13(p *Prog, r *Result, tier string) {
-	r.Rule("C13.R1", "no hop reorders: no call into sort or math/rand in the package; the search iterator is filled by an unconditional append per result entry, in range order; the collector appends in iteration order", 3)
+	r.Rule("C13.R1", "no hop reorders: no call into sort or math/rand in the package; the search iterator is filled by an unconditional append (or a store at the position the loop counts) per result entry, in range order; the collector appends in iteration order", 3)
 	r.Rule("C13.R2", "Reverse is honoured: reversed() sets the flag and the cursor to len-1; next() decrements the cursor iff the flag is set and increments it otherwise; collect calls reversed() only under the search's reverse flag and before the first next()", 3)
 	r.Rule("C13.R6", "the iterator makes progress: in next(), every path from the read of the current element to a return steps the cursor, also when the read failed (callers such as the bulk delete continue after a read error and rely on reaching the end)", 1)
 	r.Rule("C13.R7", "the sorted slice of a field index stays sorted by construction: it is written only (a) in a function that computes the position with the bisection, (b) by compaction (append of two sub-slices of itself), (c) by replacing it with an empty slice, or (d) by the decoder, whose result the index control checks for order", 3)
@@ -513,11 +542,24 @@ func checkC13(p *Prog, r *Result, tier string) {
 		for _, lp := range loops {
 			for _, b := range lp.blocks {
 				for _, in := range b.Instrs {
-					call, isC := in.(*ssa.Call)
-					if !isC {
-						continue
+					transfer := false
+					if call, isC := in.(*ssa.Call); isC {
+						if bi, isB := call.Call.Value.(*ssa.Builtin); isB && bi.Name() == "append" {
+							transfer = true
+						}
 					}
-					if bi, isB := call.Call.Value.(*ssa.Builtin); !isB || bi.Name() != "append" {
+					// position-for-position fill: a store at the position the loop itself counts (the value its header
+					// compares with a length)
+					if st, isS := in.(*ssa.Store); isS {
+						if ia, isIA := st.Addr.(*ssa.IndexAddr); isIA {
+							if hif, isIf := lp.header.Instrs[len(lp.header.Instrs)-1].(*ssa.If); isIf {
+								if bo, isBo := hif.Cond.(*ssa.BinOp); isBo && bo.Op == token.LSS && bo.X == ia.Index {
+									transfer = true
+								}
+							}
+						}
+					}
+					if !transfer {
 						continue
 					}
 					// unconditional: the block of the append is on every path header -> back edge (it dominates the latch)
@@ -532,7 +574,7 @@ func checkC13(p *Prog, r *Result, tier string) {
 			}
 		}
 		if ok {
-			r.Report("C13.R1", FuncName(fn), "order-preserving transfer", Discharged, "one unconditional append per element, in iteration order", p.Pos(fn.Pos()), nil, true)
+			r.Report("C13.R1", FuncName(fn), "order-preserving transfer", Discharged, "one unconditional append (or store at the loop's own position) per element, in iteration order", p.Pos(fn.Pos()), nil, true)
 		} else {
 			r.Report("C13.R1", FuncName(fn), "order-preserving transfer", Violated, "the loop does not append every element unconditionally in iteration order (filtering or reordering hop)", p.Pos(fn.Pos()), nil, true)
 		}
@@ -691,7 +733,29 @@ func checkC13(p *Prog, r *Result, tier string) {
 	// R3
 	if col := p.FuncByName("Search.collect"); col != nil {
 		paired, guard := false, false
-		for _, lp := range naturalLoops(col) {
+		// the collecting loop is the collector's own or that of a helper it hands the iterator to
+		var colLoops []natLoop
+		for _, f := range calleesWithin(p, col, 2) {
+			if f != col && (!inSod(p, f) || named(recvType(f)) != a.Search) {
+				continue
+			}
+			for _, lp := range naturalLoops(f) {
+				drains := false
+				for _, b := range lp.blocks {
+					for _, in := range b.Instrs {
+						if call, ok := in.(*ssa.Call); ok {
+							if g := call.Call.StaticCallee(); g != nil && g.Signature.Recv() != nil && named(g.Signature.Recv().Type()) == a.Iterator {
+								drains = true
+							}
+						}
+					}
+				}
+				if drains || f == col {
+					colLoops = append(colLoops, lp)
+				}
+			}
+		}
+		for _, lp := range colLoops {
 			for _, b := range lp.blocks {
 				apps, decs := 0, 0
 				for _, in := range b.Instrs {
@@ -715,16 +779,32 @@ func checkC13(p *Prog, r *Result, tier string) {
 				} else if apps > 0 && decs != apps {
 					paired = false
 				}
-				// the limit is compared with 0 somewhere in the loop: `limit > 0` / `limit != 0` to go on, or
-				// `limit == 0` to stop (the limit is unsigned); the comparison may be an operand of a && / ||
-				for _, li := range b.Instrs {
+				// the limit is compared with 0 before the append of the same iteration: `limit > 0` / `limit != 0` to go
+				// on, or `limit == 0` to stop (the limit is unsigned); the comparison may be an operand of a && / ||.
+				// A comparison made after the append lets Limit(0) keep one object and wrap around.
+				for ci, li := range b.Instrs {
 					bo, ok := li.(*ssa.BinOp)
 					if !ok || (bo.Op != token.GTR && bo.Op != token.EQL && bo.Op != token.NEQ) {
 						continue
 					}
-					if _, ff, _ := loadedField(bo.X); ff == a.SearchLimit {
-						if c, ok := bo.Y.(*ssa.Const); ok && c.Value != nil && c.Value.String() == "0" {
-							guard = true
+					if _, ff, _ := loadedField(bo.X); ff != a.SearchLimit {
+						continue
+					}
+					if c, ok := bo.Y.(*ssa.Const); !ok || c.Value == nil || c.Value.String() != "0" {
+						continue
+					}
+					for _, ab := range lp.blocks {
+						for ai, ain := range ab.Instrs {
+							call, ok := ain.(*ssa.Call)
+							if !ok {
+								continue
+							}
+							if bi, ok := call.Call.Value.(*ssa.Builtin); !ok || bi.Name() != "append" {
+								continue
+							}
+							if (ab == b && ci < ai) || (ab != b && b.Dominates(ab) && !ab.Dominates(b)) {
+								guard = true
+							}
 						}
 					}
 				}
@@ -738,7 +818,7 @@ func checkC13(p *Prog, r *Result, tier string) {
 		if guard {
 			r.Report("C13.R3", FuncName(col), "loop guard tests limit > 0", Discharged, "", p.Pos(col.Pos()), nil, true)
 		} else {
-			r.Report("C13.R3", FuncName(col), "loop guard tests limit > 0", Violated, "the collecting loop is not guarded by limit > 0: Limit(n) would return more (or fewer) than min(n, matches) objects", p.Pos(col.Pos()), nil, true)
+			r.Report("C13.R3", FuncName(col), "loop guard tests limit > 0", Violated, "in the collecting loop the limit is not compared with 0 before the append of the same iteration: Limit(n) would return more (or fewer) than min(n, matches) objects (Limit(0) keeps an object and the unsigned counter wraps around)", p.Pos(col.Pos()), nil, true)
 		}
 	}
 
@@ -1132,7 +1212,7 @@ func checkSortedSliceWriters(p *Prog, r *Result, rule string) {
 				}
 			}
 		}
-		decoder := fn.Name() == "UnmarshalJSON" && recvIs(fn, a.FieldIndex)
+		decoder := decoderOf(fn) != nil && recvIs(decoderOf(fn), a.FieldIndex)
 		report := func(in ssa.Instruction, how string, ok bool) {
 			construct := "write of the sorted slice: " + how
 			if ok {
